@@ -6,15 +6,17 @@
    completed with the peer advertising active_connection_id_limit = l, by ANY sequence of: 1-RTT packets addressed
    to any host ID carrying NEW_CONNECTION_ID (any sequence number, retire_prior_to, length; duplicates, reordering) /
    RETIRE_CONNECTION_ID (any sequence number) frames, local change_connection_id(), peer DCID switches,
-   datagrams_to_send, and delivery outcomes ACKED / LOST of the frames written (a RETIRE outcome only for a frame
-   really outstanding -- premise from C08).  The outcome type of the model has no "exception escaped" case: every
+   datagrams_to_send -- each call with ANY builder budget b: the number of NEW_/RETIRE_CONNECTION_ID frames
+   builder.start_frame() accepts before it raises QuicPacketBuilderStop (packet full, congestion window exhausted,
+   pacer), an input of the model -- and delivery outcomes ACKED / LOST of the frames written (a RETIRE outcome only
+   for a frame really outstanding -- premise from C08).  The outcome type of the model has no "exception escaped" case: every
    operation returns Ok, a connection error (close), Drop or Ignored -- the tie checks that against the code. *)
 From AQ Require Import lib.Base gen.C18Consts model.Cid proofs.CidP.
 
 (* dcid_not_retired: unless the connection is closing, the current destination ID and every spare one are at or
    above the largest retire_prior_to processed, so the next packet written is addressed to such an ID ... *)
-Theorem dcid_not_retired : forall c l s, reach c l s -> closed s = None ->
-  rpt s <= cur s /\ Forall (fun q => rpt s <= q) (avail s) /\ rpt s <= fst (fst (fst (send s))).
+Theorem dcid_not_retired : forall c l s b, reach c l s -> closed s = None ->
+  rpt s <= cur s /\ Forall (fun q => rpt s <= q) (avail s) /\ rpt s <= fst (fst (fst (send s b))).
 Proof. exact dcid_not_retired_l. Qed.
 Print Assumptions dcid_not_retired.
 
@@ -60,9 +62,11 @@ Theorem issued_bounded : forall c l s, 1 <= l -> reach c l s ->
 Proof. exact issued_bounded_l. Qed.
 Print Assumptions issued_bounded.
 
-(* ... and every host ID not yet announced is announced by the next datagrams_to_send. *)
-Theorem retired_replaced_announced : forall s h, closed s = None -> In h (hosts s) -> h_sent h = false ->
-  In (h_seq h) (snd (fst (fst (send s)))) /\ Forall (fun h' => h_sent h' = true) (hosts (snd (send s))).
+(* ... and every host ID not yet announced is announced by the next datagrams_to_send whose builder accepts the
+   owed NEW_CONNECTION_ID frames (the frames a smaller budget refuses stay owed: cid_frames_progress). *)
+Theorem retired_replaced_announced : forall s h b, closed s = None -> In h (hosts s) -> h_sent h = false ->
+  Zlen (unsent (hosts s)) <= b ->
+  In (h_seq h) (snd (fst (fst (send s b)))) /\ Forall (fun h' => h_sent h' = true) (hosts (snd (send s b))).
 Proof. exact unsent_are_announced. Qed.
 Print Assumptions retired_replaced_announced.
 
@@ -79,7 +83,8 @@ Print Assumptions retired_not_held.
 
 (* retirement_announced: EVERY sequence number received in a well-formed NEW_CONNECTION_ID frame (also one that
    arrives below the retire_prior_to already in force, F2) is the current one, spare, pending retirement, in an
-   outstanding RETIRE frame, or acknowledged; LOST re-queues; datagrams_to_send writes all pending. *)
+   outstanding RETIRE frame, or acknowledged -- for all op sequences AND all builder budgets, so a frame the
+   builder refuses never loses the retirement; LOST re-queues. *)
 Theorem retirement_announced : forall c l s q, reach c l s -> In q (recvd s) ->
   q = cur s \/ In q (avail s) \/ In q (pend s) \/ In q (outs s) \/ In q (ackd s).
 Proof. exact retirement_announced_l. Qed.
@@ -89,10 +94,39 @@ Theorem lost_retire_requeued : forall s q, In q (pend (retire_delivery s q false
 Proof. exact lost_requeued. Qed.
 Print Assumptions lost_retire_requeued.
 
-Theorem pending_retires_written : forall s, closed s = None ->
-  snd (fst (send s)) = pend s /\ pend (snd (send s)) = [] /\ forall q, In q (pend s) -> In q (outs (snd (send s))).
+(* one datagrams_to_send, any budget: the pending list is split IN ORDER into the RETIRE frames written (from then on
+   outstanding) and the retirements that stay pending; nothing is dropped. *)
+Theorem refused_retire_stays_pending : forall s b,
+  pend s = snd (fst (send s b)) ++ pend (snd (send s b)) /\ outs (snd (send s b)) = outs s ++ snd (fst (send s b)).
+Proof. exact refused_stays_pending. Qed.
+Print Assumptions refused_retire_stays_pending.
+
+(* a budget that covers everything owed: every pending retirement is written by this call *)
+Theorem pending_retires_written : forall s b, closed s = None -> Zlen (unsent (hosts s)) + Zlen (pend s) <= b ->
+  snd (fst (send s b)) = pend s /\ pend (snd (send s b)) = [] /\ forall q, In q (pend s) -> In q (outs (snd (send s b))).
 Proof. exact pending_all_written. Qed.
 Print Assumptions pending_retires_written.
+
+(* whenever the builder accepts one frame beyond the owed NEW_CONNECTION_ID frames, the OLDEST pending retirement is
+   written ... *)
+Theorem oldest_pending_retire_written : forall s b q t, closed s = None -> pend s = q :: t ->
+  Zlen (unsent (hosts s)) < b -> exists w, snd (fst (send s b)) = q :: w.
+Proof. exact oldest_pending_written. Qed.
+Print Assumptions oldest_pending_retire_written.
+
+(* ... in general the call writes exactly min(b, owed) CID frames and what is owed shrinks by that much ... *)
+Theorem cid_frames_progress : forall s b,
+  Zlen (snd (fst (fst (send s b)))) + Zlen (snd (fst (send s b))) = Z.min (Z.max 0 b) (owed s) /\
+  owed (snd (send s b)) = owed s - Z.min (Z.max 0 b) (owed s).
+Proof. exact send_progress. Qed.
+Print Assumptions cid_frames_progress.
+
+(* ... so once the window is open again (every call accepts at least one frame) as many calls as frames are owed
+   leave no retirement pending and no NEW_CONNECTION_ID owed. *)
+Theorem fair_sends_drain_thm : forall bs s, closed s = None -> Forall (fun b => 1 <= b) bs -> owed s <= Zlen bs ->
+  pend (run s (map Send bs)) = [] /\ unsent (hosts (run s (map Send bs))) = [].
+Proof. exact fair_sends_drain. Qed.
+Print Assumptions fair_sends_drain_thm.
 
 (* ConnectionIdRetired only after ConnectionIdIssued (or for the initial ID, which the server registers itself):
    the routing table of aioquic.asyncio.server never meets an unknown ID (F3) ... *)
